@@ -16,12 +16,21 @@ KWKEYS = ["a", "phi", "r", "select", "k", "theta"]
 FUNCS_NUM = ["sqrt", "exp", "sin", "cos", "tanh", "arctan", "log"]
 ALL_FEATURES = ["target_opts", "type_opts", "tdm", "scalars", "arrays", "array_params",
                 "templates", "regrefs", "loops", "kwargs", "lists", "includes", "measure",
-                "strings", "complex", "whole_array_param", "fp_edge"]
+                "strings", "complex", "whole_array_param", "fp_edge", "deep_expr", "typed_equal"]
 FAIL_KINDS = ["syntax", "undefined", "reserved", "nonint_mode", "bad_cast", "loop_value",
               "loop_body", "undefined_idx", "inc_missing", "inc_inner", "inc_call", "func_type"]
 # arithmetic that leaves the floating-point range (inf / nan with a numpy warning)
 FP_EDGES = ["1/0", "1/0.0", "10.0**400", "exp(1000)", "log(0)", "arcsin(2)", "0.0/0", "-1/0.0",
             "2.0**2000", "1e308*10", "sqrt(-1.0)", "arccosh(0.5)", "tan(pi/2)*1e300*1e300"]
+
+
+# values that compare (and hash) equal across types: whatever is remembered per VALUE
+# (memoised evaluations, interned constants) confuses them, and only across loads
+TYPED_EQUAL = [[("int", "-1"), ("float", "-1.0"), ("complex", "-1+0j")],
+               [("int", "1"), ("float", "1.0"), ("complex", "1+0j"), ("bool", "True")],
+               [("int", "4"), ("float", "4.0"), ("complex", "4+0j")],
+               [("float", "0.0"), ("float", "-0.0"), ("int", "0"), ("complex", "0j"), ("bool", "False")],
+               [("int", "-2"), ("float", "-2.0"), ("int", "-1"), ("float", "-1.0")]]   # hash(-1) == hash(-2)
 
 
 def swarm(rng):
@@ -30,6 +39,7 @@ def swarm(rng):
     npool = rng.randint(2, 8)
     pool = rng.sample(MASTER_NAMES, npool)
     return {"features": feats, "pool": pool,
+            "typed_func": rng.choice(FUNCS_NUM), "typed_group": rng.randrange(len(TYPED_EQUAL)),
             "size": rng.choice([2, 3, 4, 6, 9, 14]),
             "fail_rate": rng.choice([0.0, 0.2, 0.4, 0.6]),
             "fail_kinds": [k for k in FAIL_KINDS if rng.random() < 0.7] or ["undefined"]}
@@ -364,6 +374,39 @@ class ScriptGen:
                 self.defs.append(nm)
                 self.scalars.append((nm, "float"))
                 items.append(["float %s = %s" % (nm, r.choice(FP_EDGES))])
+            elif k < 0.075 and "deep_expr" in self.f:
+                # a long chain a+a+...+a: the parse tree is as deep as the chain is long, so
+                # whether the script loads depends on the interpreter's recursion headroom -
+                # process-wide state that an earlier load may have left changed.  Lengths are
+                # log-uniform around the default boundary (several hundred to a thousand terms)
+                # and well beyond it
+                import math
+                nterms = int(math.exp(r.uniform(math.log(200), math.log(6000))))
+                nm = self.free_name()
+                self.defs.append(nm)
+                self.scalars.append((nm, "float"))
+                atom = r.choice(["1", "0.5", "2"])
+                items.append(["float %s = %s" % (nm, "+".join([atom] * nterms))])
+            elif k < 0.12 and "typed_equal" in self.f:
+                # the run's one function applied to one of a few values that are equal across
+                # types (-1, -1.0, -1+0j ...), directly or through a variable of that type
+                t, lit = r.choice(TYPED_EQUAL[self.cfg.get("typed_group", 0)])
+                fn = self.cfg.get("typed_func", "log")
+                nm = self.free_name()
+                self.defs.append(nm)
+                lines = []
+                if t == "bool" or r.random() < 0.5:
+                    v = self.free_name()
+                    if v == nm:
+                        v = nm + "v"
+                    self.defs.append(v)
+                    lines.append("%s %s = %s" % (t, v, lit))
+                    lit = v
+                lines.append("complex %s = %s(%s)" % (nm, fn, lit))
+                if r.random() < 0.5:
+                    lines.append("%s(%s) | 0" % (r.choice(GATES1), nm))
+                self.scalars.append((nm, "complex"))
+                items.append(lines)
             elif k < 0.18 and "scalars" in self.f:
                 items.append(self.item_scalar())
             elif k < 0.28 and "arrays" in self.f:
